@@ -17,7 +17,19 @@
            exceeds about 2^50.68 (C02_refuted_scaled_window, new finding) - it is a decidable condition on the type,
            and C02_scaled_guard_easy proves it from either of two plain conditions: indices up to 2^50 with
            arbitrary finite limits, or indices up to 2^51 with limits on the grid (every client side type).
-   (json kind)  checked by Run.check_case (kind_ok, strict_json on the model's export) and by the oracle; no theorem.
+   (b64)   CPython's base64 codec enters per value: b64_ok E C d v says that every blob inside v is encoded by the codec
+           C to a text that the table E decodes back to it (boolean; examples compute it).  A law for ALL byte strings
+           cannot be met by a finite table, the theorems would be vacuous - it was replaced.
+   (json kind)  C02_export_kind_sound: whenever export_value of a valid value returns (any tree, no guard), the result
+           has the JSON kind SECoP prescribes (number for double - finite, hence strict JSON -, integer for
+           int/scaled/enum, true/false, string, RFC 4648 text for blob - under the law that b64encode produces such
+           text -, array, object over member names); C02_json_kind adds that within the guards it does return.
+           Also checked on every case by Run.check_case and by the oracle.
+   (client type)  C02_client_of_within_guards: the type rebuilt from the exported datainfo of a tree within the guards
+           exists and is within the guards (scaled limits are rebuilt as grid values with the same indices), so the
+           client theorems carry hypotheses on the node's tree only.  C02_client_same_values: the rebuilt type has
+           the same valid values; C02_client_side_roundtrip: a value exported by the client side type (setParameter)
+           survives import_value + validate on the node.
    (client) C02_client_imports_like_node - for every tree whose enums list their members by ascending code,
            import_value of the rebuilt type equals import_value of the node's type on EVERY json value; hence
            C02_client_roundtrip: the client obtains from the exported form the very value the node obtains, which
@@ -30,7 +42,8 @@
 From Coq Require Import ZArith NArith Bool List.
 Import ListNotations.
 Require Import FV.Gen.C02 FV.Base.F64 FV.Base.PyVal FV.C01.Model FV.C01.Lemmas FV.C02.Model FV.C02.Run FV.C02.Lemmas
-  FV.C02.LemmasNum FV.C02.LemmasScaled FV.C02.LemmasText FV.C02.LemmasClient FV.C02.Refuted.
+  FV.C02.LemmasNum FV.C02.LemmasScaled FV.C02.LemmasText FV.C02.LemmasClient FV.C02.LemmasKind
+  FV.C02.LemmasClientGuards FV.C02.LemmasClientSide FV.C02.Refuted.
 
 (* obligations on the facts regenerated from /repo (Gen/C02.v) *)
 Theorem C02_source_facts :
@@ -43,12 +56,37 @@ Theorem C02_source_facts :
 Proof. repeat split; reflexivity. Qed.
 Print Assumptions C02_source_facts.
 
-Theorem C02_wire_roundtrip : forall E C, b64_law E C ->
-  forall d, num_limits_ok d = true -> scaled_grid_small d = true -> forall v, valid d v = true ->
+Theorem C02_wire_roundtrip : forall E C,
+  forall d, num_limits_ok d = true -> scaled_grid_small d = true ->
+  forall v, valid d v = true -> b64_ok E C d v = true ->
   exists j w v', dt_export C d v = Ok j /\ dt_import E d j = Ok w /\ dt_validate d w PNone = Ok v' /\ py_eq v v' /\
                  w <> PNone.
 Proof. exact wire_roundtrip_all. Qed.
 Print Assumptions C02_wire_roundtrip.
+
+(* the JSON kind, no guard on the tree: whenever export_value of a valid value returns, the result is of the kind
+   prescribed for the type, and strict JSON (a valid double is finite, so neither NaN nor Infinity is exported;
+   the open finding C06/nan-constant concerns constants of the description, not validated values).
+   b64_text_law C: whatever b64encode answers is RFC 4648 text (a statement about CPython only) *)
+Theorem C02_export_kind_sound : forall C, b64_text_law C ->
+  forall d v j, valid d v = true -> dt_export C d v = Ok j -> kind_ok d j = true /\ strict_json j = true.
+Proof.
+  intros C HT d v j Hv H. split; [exact (export_kind_sound C HT d v j Hv H)|exact (export_strict C HT d v j Hv H)].
+Qed.
+Print Assumptions C02_export_kind_sound.
+
+(* ... and within the guards of the wire round trip the exported form exists *)
+Theorem C02_json_kind : forall E C, b64_text_law C ->
+  forall d, num_limits_ok d = true -> scaled_grid_small d = true ->
+  forall v, valid d v = true -> b64_ok E C d v = true ->
+  exists j, dt_export C d v = Ok j /\ kind_ok d j = true /\ strict_json j = true.
+Proof. intros E C HT. exact (json_kind C HT E). Qed.
+Print Assumptions C02_json_kind.
+
+(* the prescribed kind alone excludes NaN / Infinity *)
+Theorem C02_kind_is_strict_json : forall d j, kind_ok d j = true -> strict_json j = true.
+Proof. exact kind_strict. Qed.
+Print Assumptions C02_kind_is_strict_json.
 
 (* the scaled leaf in the model's own functions: for a positive normal scale s <= 2^970 and a grid index k with
    |k| <= 2^51, every float f that is numerically fl(k * s) is exported as k: round(f / s) = k *)
@@ -81,7 +119,8 @@ Print Assumptions C02_scaled_guard_easy.
 (* setParameterFromString(text) = from_string, export_value, node import_value + validate: an accepted text with a valid
    value w leaves the node with a value equal to w *)
 Theorem C02_setparam_roundtrip : forall C E d t w,
-  b64_law E C -> num_limits_ok d = true -> scaled_grid_small d = true -> from_string C d t = Ok w -> valid d w = true ->
+  num_limits_ok d = true -> scaled_grid_small d = true -> from_string C d t = Ok w -> valid d w = true ->
+  b64_ok E C d w = true ->
   exists v', set_from_string C E d d t = Ok v' /\ py_eq w v'.
 Proof. exact setparam_roundtrip_all. Qed.
 Print Assumptions C02_setparam_roundtrip.
@@ -121,17 +160,50 @@ Theorem C02_client_imports_like_node : forall E d, enums_sorted d -> forall dc, 
 Proof. exact client_import_same. Qed.
 Print Assumptions C02_client_imports_like_node.
 
-Theorem C02_client_roundtrip : forall E C, b64_law E C ->
-  forall d dc, num_limits_ok d = true -> scaled_grid_small d = true -> enums_sorted d -> client_of d = Ok dc ->
-  forall v, valid d v = true ->
+(* the type the client rebuilds from the exported datainfo of a tree within the guards exists and is itself within
+   every guard: scaled limits are rebuilt as round(limit/scale)*scale, grid values with the same indices
+   (scaled_grid_aligned, which implies scaled_grid_easy and scaled_grid_small); sorted enums stay sorted *)
+Theorem C02_client_of_within_guards : forall d, num_limits_ok d = true -> scaled_grid_small d = true ->
+  exists dc, client_of d = Ok dc /\ num_limits_ok dc = true /\ scaled_grid_small dc = true /\
+             scaled_grid_easy dc = true /\ scaled_grid_aligned dc = true /\ (enums_sorted d -> enums_sorted dc).
+Proof. exact client_of_within_guards. Qed.
+Print Assumptions C02_client_of_within_guards.
+
+(* hypotheses on the node's tree only: the client side type exists, is within the guards, and the client obtains from
+   the exported form of every valid value the very value w the node obtains, which validates to a value == v *)
+Theorem C02_client_roundtrip : forall E C,
+  forall d, num_limits_ok d = true -> scaled_grid_small d = true -> enums_sorted d ->
+  exists dc, client_of d = Ok dc /\ num_limits_ok dc = true /\ scaled_grid_small dc = true /\ enums_sorted dc /\
+  forall v, valid d v = true -> b64_ok E C d v = true ->
   exists j w v', dt_export C d v = Ok j /\ dt_import E dc j = Ok w /\ dt_import E d j = Ok w /\
                  dt_validate d w PNone = Ok v' /\ py_eq v v'.
 Proof.
-  intros E C HB d dc H1 H2 HS Hc v Hv.
-  destruct (wire_roundtrip_all E C HB d H1 H2 v Hv) as (j & w & v' & G1 & G2 & G3 & G4 & _).
+  intros E C d H1 H2 HS.
+  destruct (client_of_within_guards d H1 H2) as (dc & Hc & G1 & G2 & _ & _ & G3).
+  exists dc. repeat split; auto. intros v Hv Hb.
+  destruct (wire_roundtrip_all E C d H1 H2 v Hv Hb) as (j & w & v' & A1 & A2 & A3 & A4 & _).
   exists j, w, v'. rewrite (client_import_same E d HS dc Hc j). auto.
 Qed.
 Print Assumptions C02_client_roundtrip.
+
+(* the rebuilt type has exactly the valid values of the node's type (the regridded scaled limits select the same lowest
+   and highest grid value; an optional list that names every member is written as "all members") *)
+Theorem C02_client_same_values : forall d, scaled_grid_small d = true -> enums_sorted d ->
+  forall dc, client_of d = Ok dc -> forall v, valid dc v = valid d v.
+Proof. exact client_valid_same. Qed.
+Print Assumptions C02_client_same_values.
+
+(* the other direction (setParameter): a valid value of the client side type is a valid value of the node's type; exported
+   by the client side type and handed to import_value + validate of the node it arrives as a value == v.  Hypotheses on
+   the node's tree only *)
+Theorem C02_client_side_roundtrip : forall E C,
+  forall d, num_limits_ok d = true -> scaled_grid_small d = true -> enums_sorted d ->
+  exists dc, client_of d = Ok dc /\
+  forall v, valid dc v = true -> b64_ok E C dc v = true ->
+  valid d v = true /\
+  exists j w v', dt_export C dc v = Ok j /\ dt_import E d j = Ok w /\ dt_validate d w PNone = Ok v' /\ py_eq v v'.
+Proof. exact client_side_roundtrip. Qed.
+Print Assumptions C02_client_side_roundtrip.
 
 (* non-vacuity: a nested type with enum, bool, string, int, double and scaled leaves (decimal scale 0.1, limits 0 and
    100 - the upper limit is not bit-identical to 1000 * 0.1) satisfies every guard, and a value with a grid point far
@@ -148,6 +220,47 @@ Example C02_demo : valid demo_d demo_v = true /\ num_limits_ok demo_d = true /\ 
   scaled_grid_easy demo_d = true /\
   res_same (dt_export C0 demo_d demo_v) (Ok (PDict [([97%N], PList [PInt 2; PInt 1]); ([99%N], PInt 997)])) = true.
 Proof. repeat split; vm_compute; reflexivity. Qed.
+
+(* non-vacuity of the per-value base64 hypothesis, of the b64encode law and of the JSON kind theorem: a codec and a
+   b64decode table that know the blob b'hi' <-> 'aGk=', a tuple of a blob and the nested demo value; every hypothesis
+   of C02_wire_roundtrip, C02_json_kind and C02_client_roundtrip computes to true, and the instantiated theorems give
+   the exported form (of the prescribed kind, strict JSON) and the client side type (within the guards) *)
+Definition TB : tables := {| t_b64 := [([104;105]%N, [97;71;107;61]%N)]; t_fmt := []; t_repr := []; t_lit := [] |}.
+Definition CB : codec := codec_of TB.
+Definition EB : pyenv := {| int_of := []; b64_of := [(false, [97;71;107;61]%N, [104;105]%N)] |}.
+Lemma CB_text_law : b64_text_law CB.
+Proof.
+  intros b s. cbn [CB codec_of TB c_b64 t_b64 lookup_by].
+  destruct (str_eqb b [104;105]%N); intros H; inversion H. vm_compute. reflexivity.
+Qed.
+Definition kind_d : dtype := TTuple [TBlob 0 10; demo_d].
+Definition kind_v : pyval := PTuple [PBytes [104;105]%N; demo_v].
+Example C02_kind_demo :
+  valid kind_d kind_v = true /\ num_limits_ok kind_d = true /\ scaled_grid_small kind_d = true /\
+  b64_ok EB CB kind_d kind_v = true /\ enums_sorted kind_d /\
+  res_same (dt_export CB kind_d kind_v)
+           (Ok (PList [PStr [97;71;107;61]%N; PDict [([97%N], PList [PInt 2; PInt 1]); ([99%N], PInt 997)]])) = true /\
+  (exists j, dt_export CB kind_d kind_v = Ok j /\ kind_ok kind_d j = true /\ strict_json j = true) /\
+  (exists j w v', dt_export CB kind_d kind_v = Ok j /\ dt_import EB kind_d j = Ok w /\
+                  dt_validate kind_d w PNone = Ok v' /\ py_eq kind_v v' /\ w <> PNone) /\
+  (exists dc, client_of kind_d = Ok dc /\ num_limits_ok dc = true /\ scaled_grid_small dc = true /\
+              scaled_grid_easy dc = true /\ scaled_grid_aligned dc = true /\ (enums_sorted kind_d -> enums_sorted dc)).
+Proof.
+  assert (H1 : valid kind_d kind_v = true) by (vm_compute; reflexivity).
+  assert (H2 : num_limits_ok kind_d = true) by (vm_compute; reflexivity).
+  assert (H3 : scaled_grid_small kind_d = true) by (vm_compute; reflexivity).
+  assert (H4 : b64_ok EB CB kind_d kind_v = true) by (vm_compute; reflexivity).
+  split; [exact H1|]. split; [exact H2|]. split; [exact H3|]. split; [exact H4|].
+  split; [cbn; repeat split; reflexivity|]. split; [vm_compute; reflexivity|].
+  split; [exact (C02_json_kind EB CB CB_text_law kind_d H2 H3 kind_v H1 H4)|].
+  split; [exact (C02_wire_roundtrip EB CB kind_d H2 H3 kind_v H1 H4)|].
+  exact (C02_client_of_within_guards kind_d H2 H3).
+Qed.
+
+(* a valid value may not be NaN: the double leaf demands a finite value, so the strictness part of the kind theorem is
+   about values that passed validation; nan itself is not valid for any double type *)
+Example C02_nan_not_valid : forall mn mx a r, valid (TFloat mn mx a r) (PFloat fnan) = false.
+Proof. intros. reflexivity. Qed.
 
 (* the guard is sharp in both of its arithmetic conjuncts: the type of C02_refuted_scaled_window has a good scale and
    indices below 2^51 but fails the window conjunct; far_d has indices up to 2^51 and satisfies the guard *)
